@@ -43,7 +43,7 @@ type c04Case struct {
 	Proto   int    `json:"proto"`
 	Type    string `json:"type"`
 	Entropy []byte `json:"entropy"`
-	Wide    bool   `json:"wide,omitempty"` // component strings from the wide alphabet (quotes, backslash, newline, ...)
+	Wide    bool   `json:"wide,omitempty"`    // component strings from the wide alphabet (quotes, backslash, newline, ...)
 	DataLen int    `json:"datalen,omitempty"` // plugin.Message: forced payload length (length-prefix boundary sweep)
 }
 
